@@ -333,7 +333,7 @@ def run():
     res.add_tlc(f"Lexer: same invariants <= {nch + 2} characters (spec level only)", t8)
     ntok = 7 if thorough else 5
     cfga = work.path("ahbsplit.cfg")
-    cfga.write_text(f"CONSTANTS\n MaxTok = {ntok}\nINIT MCInit\nNEXT MCNext\n" + "\n".join(
+    cfga.write_text(f"CONSTANTS\n MaxTok = {ntok}\n Alphabet = {{\"M\", \"S\", \"K\", \"a\", \"(\", \")\", \"U\", \"X\", \"O\"}}\nINIT MCInit\nNEXT MCNext\n" + "\n".join(
         "INVARIANT " + i for i in ["PartsWellFormed", "ViabilityIsExact", "SplitIsLossless", "OnePrefixPart", "BareOnlyLast", "ObsIsConsistent"]) + "\nCHECK_DEADLOCK FALSE\n")
     dumpa = work.path("ahbsplit.dump")
     ta = run_tlc("AhbSplit", str(cfga), work, dump=dumpa, timeout=3000)
